@@ -80,3 +80,31 @@ theorem analyse_firstRefCoherent (b : Block) (h : (refTokens b).Nodup) : (analys
       simp [h1]
 
 end Selene.Scope.Core
+
+namespace Selene.Scope.Core
+open Selene.Lua
+
+/-- two reads never share a token (among entries in log order: a read is not preceded by any reference at its token) -/
+theorem reads_pairwise : (refs : List Ref) → NoEarlier (refs.map fun r => (r.tok, r.k)) →
+    refs.Pairwise fun a b => a.decl = false → b.decl = false → b.write = false → a.tok ≠ b.tok
+  | [], _ => List.Pairwise.nil
+  | x :: xs, hne => by
+    refine List.Pairwise.cons ?_ (reads_pairwise xs (NoEarlier.tail hne))
+    intro y hy hxd hyd hyw
+    obtain ⟨pre, post, rfl⟩ := List.append_of_mem hy
+    exact hne ((x.tok, x.k) :: pre.map fun r => (r.tok, r.k)) y.tok (post.map fun r => (r.tok, r.k))
+      (by simp [Ref.k_read hyd hyw]) (x.tok, x.k) (by simp) (Ref.k_ne_decl hxd)
+
+/-- **`undefined_variable` over the machine's log reports no token twice** — for every chunk with pairwise
+distinct reference tokens and every library predicate -/
+theorem undefinedReports_nodup (hasFields : String → Bool) (b : Block) (h : (refTokens b).Nodup) :
+    (undefinedReports hasFields (analyse b)).Nodup := by
+  unfold undefinedReports
+  have hp := reads_pairwise (analyse b).refs (analyse_ext b h)
+  rw [List.Nodup, List.pairwise_map]
+  refine (hp.filter _).imp_of_mem ?_
+  intro a c ha hc hR
+  simp only [List.mem_filter, Bool.and_eq_true, Bool.not_eq_true', Option.isNone_iff_eq_none] at ha hc
+  exact hR ha.2.1.1.1 hc.2.1.1.1 hc.2.1.1.2
+
+end Selene.Scope.Core
